@@ -269,7 +269,7 @@ def c12Step (s : Sess) (line : String) : Sess × String :=
           (.op (.stageNew c st.trie st.buf.entries))) "ok"
     | "set", [some c, some k, some v] =>
       match withHandle s c (fun st => some (st.setData k v)) with
-      | some s' => answer (if isAlias s c then mop s' (.op (.setData c k (v+1))) else s') "ok"
+      | some s' => answer (if isAlias s c then mop s' (.op (.setData c k v)) else s') "ok"
       | none => (s, "bad-op")
     | "del", [some c, some k] =>
       match withHandle s c (fun st => some (st.deleteData k)) with
